@@ -34,6 +34,7 @@ def run(ctx):
     d_writers(ctx)
     e_drain(ctx)
     f_flow_configs(ctx)
+    d_index_key_fresh(ctx)
     g_action_refs(ctx)
 
 
@@ -369,6 +370,53 @@ def _anc(node, stop):
     while p is not None and p is not stop:
         yield p
         p = getattr(p, "_parent", None)
+
+
+def d_index_key_fresh(ctx):
+    """The dispatch index must hold a waiting head under the event name its pattern denotes NOW.  For `match $ref.Finished()` the name depends on the object the
+    variable holds in this instance, so the key has to be computed from (state, flow_state, element) at every registration - never taken from a per-statement cache -
+    and the shared flow configuration is read-only at run time."""
+    t = ctx.tree.ast(SM)
+    reg = find_function(t, REG)
+    if reg is None:
+        raise AnalysisError("%s not found" % REG, anchor=SM + "::" + REG)
+    keys = set()
+    for c in ast.walk(reg):
+        if isinstance(c, ast.Call) and isinstance(c.func, ast.Attribute) and src(c.func.value) == "state.event_matching_heads" and c.func.attr in ("get", "setdefault") and c.args:
+            keys.add(src(c.args[0]))
+        if isinstance(c, ast.Subscript) and src(c.value) == "state.event_matching_heads":
+            keys.add(src(c.slice))
+    keys = {k for k in keys if k.isidentifier()}
+    if not keys:
+        raise AnalysisError("index key variable not found in %s" % REG, anchor=SM + "::" + REG + "::key")
+    for k in sorted(keys):
+        defs = [a for a in ast.walk(reg) if isinstance(a, ast.Assign) and any(src(x) == k for x in a.targets)]
+        ok = bool(defs) and all(isinstance(a.value, ast.Call) and src(a.value.func) == "get_event_name_from_element" and
+                                [src(x) for x in a.value.args][:3] == ["state", "flow_state", "element"] for a in defs)
+        ctx.check("C09.d.index-key", SM, REG, "%s = ..." % k, ok,
+                  "the index key is get_event_name_from_element(state, flow_state, element), computed at every registration" if ok else
+                  "the index key `%s` has a definition that is not a fresh get_event_name_from_element(state, flow_state, element) (%s): for `match $ref.<Event>()` the name depends on the object in "
+                  "THIS instance's variable, a remembered name registers the head under another action's event and the event it waits for never reaches it"
+                  % (k, "; ".join(first_line(a, 50) for a in defs if not (isinstance(a.value, ast.Call) and src(a.value.func) == "get_event_name_from_element"))), line=(defs[0].lineno if defs else reg.lineno))
+    # no function of the state machine other than initialize_flow writes into a flow configuration
+    writers = []
+    for fn in functions(t):
+        if fn.name == "initialize_flow":
+            continue
+        for n in walk_no_nested(fn):
+            tg = n.targets if isinstance(n, ast.Assign) else [n.target] if isinstance(n, ast.AugAssign) else []
+            for x in tg:
+                b = x
+                while isinstance(b, (ast.Attribute, ast.Subscript)):
+                    b = b.value
+                if isinstance(x, (ast.Attribute, ast.Subscript)) and isinstance(b, ast.Name) and b.id in ("flow_config", "main_flow_config"):
+                    writers.append((fn, n))
+            if isinstance(n, ast.Call) and isinstance(n.func, ast.Attribute) and n.func.attr in ("update", "append", "pop", "setdefault", "clear", "extend", "insert") \
+                    and re.match(r"(flow_config|main_flow_config)\.\w+", src(n.func.value)):
+                writers.append((fn, n))
+    ctx.check("C09.d.index-key", SM, "<module>", "flow configurations are read-only at run time", not writers,
+              "only initialize_flow writes into a FlowConfig" if not writers else
+              "flow configuration written at run time: %s" % "; ".join("%s: %s" % (f.name, first_line(n, 50)) for f, n in writers), line=(writers[0][1].lineno if writers else 1))
 
 
 def f_flow_configs(ctx):
